@@ -76,6 +76,11 @@ CHECKS = {
          "EmbSpace programs (<=1 / <=2 deviations) under c++11/c++17 (thorough: 11/14/17, g++ and clang++), enum traits on and off; all ordered pairs of 11 field names and of 7 type names adjacent to generated identifiers (plus a type nested in itself and a field named like its type); enums from the C19 space; 5 namespace forms with an import whose types, enums, parameters and constants are used through the alias. The driver instantiates every view, accessor, presence test, checked and unchecked read/write, copy/equals, text method, enum helper; every constant (Intrinsic/Max/Min sizes, constant virtuals, enumerators) is static_asserted equal to the value the front end computed.",
          "Trusted: g++ 12 / clang++ 14. Names rejected by the compiler are only counted. Known findings: collide:has_x, collide:FooView, collide:backing_, collide:kCamelCase, choice-constant-condition-static-assert.",
          "DESIGN.md section 3, C07"),
+ "C18": ("exploration",
+         "deviation-bounded exhaustive enumeration of accepted programs plus corpus and import/big-constant families; IR round-tripped through JSON and compared structurally, headers compared byte for byte, split pipeline run as subprocesses",
+         "Every accepted EmbSpace program (<=1 / <=2 deviations), the 31 testdata files, an import family with same-named types and enums in two modules, and a module with constants beyond 64 bits: from_json(to_json(ir)) equals ir under a structural comparer (set/unset status, Python type, list length, source-location flags; not Message.__eq__), to_json is idempotent, generate_header of the re-read IR is byte-identical, and for a subset embossc equals emboss_front_end | emboss_codegen_cpp run as separate processes. Reports node-kind x field coverage (all 120 IR fields set at least once).",
+         "Trusted: the comparer in checks/c18.py. Subprocess equivalence on 8 (quick) / 40+ (thorough) programs only.",
+         "DESIGN.md section 3, C18"),
 }
 NOT_YET = "check not built yet in this round (planned in DESIGN.md section 3); no claim made"
 
